@@ -276,7 +276,9 @@ def readRequestBody (w : Nat) (r : Registry) (sup : List Str) (h : Hdrs) (wire :
     | none => decodeBody r sup h none
     | some .empty => decodeBody r sup h none
     | some .bad => .error .value
-    | some (.val n) => decodeBody r sup h (some (pyRead wire n))
+    | some (.val n) =>
+      if n < 0 then .error .value            -- repaired: a negative length is rejected (was: read until the peer closes)
+      else decodeBody r sup h (some (pyRead wire n))
 
 /-- `HTTPReader.read_response_body(http_response, supported_encodings)`; `payload` = what `http_response.read`
     delivers (http.client has already removed the chunked framing) -/
@@ -323,6 +325,22 @@ def respond (r : Registry) (serverSupported : List Str) (chunk : Nat) (acceptEnc
 /-- what `http.client.HTTPResponse.read` hands to `read_response_body` (stdlib, assumed to implement RFC 7230) -/
 def clientTransport (w : Nat) (h : Hdrs) (wire : Bytes) : Except Err Bytes :=
   if h.isChunked then (match dechunk w wire with | .ok (b, _) => .ok b | .error e => .error e) else .ok wire
+
+/-! ## configuration histories: `set_used_compression` while the server is running
+
+`SdcProvider` / `SdcConsumer` hand their live list `_compression_methods` to the http server; `set_used_compression(*names)`
+replaces its content in place, and `_compress_if_supported` reads `server.supported_encodings` for every response. -/
+
+inductive CfgOp
+  | setUsed (names : List Str)       -- set_used_compression(*names)
+  | request (ae : Option Str)        -- one request with this Accept-Encoding header (none = header absent)
+deriving DecidableEq, Repr
+
+/-- for every request of the history: (codings enabled at that time, its Accept-Encoding, Content-Encoding of its response) -/
+def cfgRun (cfg : List Str) : List CfgOp → List (List Str × Option Str × Option Str)
+  | [] => []
+  | .setUsed ns :: r => cfgRun ns r
+  | .request ae :: r => (cfg, ae, choose (parseHeader (ae.getD [])) cfg) :: cfgRun cfg r
 
 /-- the codec assumption: every registered handler decodes what it encoded (zlib / lz4 are trusted to satisfy it) -/
 def CodecsLossless (r : Registry) : Prop := ∀ e ∈ r.handlers, ∀ x, e.2.dec (e.2.enc x) = some x
